@@ -70,6 +70,26 @@ def _impl_case(case):
                     if list(fz.bytes()) != ref or mido.Message.from_bytes(fz.bytes(), time=time) != m:
                         fail = f'the frozen copy of {m!r} encodes to {list(fz.bytes())} instead of {ref}'
                 if fail is None:
+                    # keyword order is not part of a message: the same values given in another order (constructor,
+                    # from_dict) encode to the same bytes
+                    rd = dict(reversed(list(d.items())))
+                    mr = mido.Message(t, time=time, **rd)
+                    md = mido.Message.from_dict(dict(reversed(list(m.dict().items()))))
+                    if list(mr.bytes()) != ref or list(md.bytes()) != ref or list(mr.copy().bytes()) != ref:
+                        fail = (f'the same values given in another keyword order encode to {list(mr.bytes())} (constructor) / '
+                                f'{list(md.bytes())} (from_dict) instead of {ref}')
+                if fail is None and (t == 'sysex' or len(ref) % 2 == 1):
+                    # copies made by the standard library are the same message, and making them leaves the original alone
+                    from .. import persist
+                    fail = persist.message_clone_failure(mido, m)
+                    if fail is None:
+                        for how, c in persist.clones(m):
+                            if list(c.bytes()) != ref or mido.Message.from_bytes(c.bytes(), time=time) != c:
+                                fail = f'the {how} of {m!r} encodes to {list(c.bytes())} / does not decode back to itself'
+                                break
+                        if fail is None and (list(m.bytes()) != ref or mido.Message.from_bytes(m.bytes(), time=time) != m):
+                            fail = f'after copy / deepcopy / pickle of {m!r} the original no longer round-trips: {vars(m)}'
+                if fail is None:
                     bs.append(0x55)
                     bs[0] = 0
                     again = mido.Message(t, time=time, **d).bytes()
